@@ -6,11 +6,14 @@ import TFV.Generated.Src.Bench_Rastrigin_f
 import TFV.Generated.Src.Bench_Griewank_f
 import TFV.Generated.Src.Bench_Elliptic_f
 import TFV.Generated.Src.Bench_Ackley_f
+import TFV.Generated.Src.Bench_ScafferPair
 open TFV TFV.Generated.Src
 def showQ : Option (List Rat) → String | none => "none" | some v => toString (v.map fun q => (q.num, q.den))
 #eval IO.println (showQ (Bench_Rastrigin_f (fun _ => 1) { ncols := 3, rows := [[(4 : Rat) / 1, (2 : Rat) / 1, (-1 : Rat) / 1]] }))
-#eval IO.println (showQ (Bench_Schwefel12_f { ncols := 5, rows := [[(-3 : Rat) / 2, (0 : Rat) / 1, (-1 : Rat) / 2, (0 : Rat) / 1, (1 : Rat) / 2], [(1 : Rat) / 1, (-1 : Rat) / 1, (0 : Rat) / 1, (0 : Rat) / 1, (-5 : Rat) / 2], [(2 : Rat) / 1, (-2 : Rat) / 1, (-2 : Rat) / 1, (-3 : Rat) / 1, (3 : Rat) / 2]] }))
-#eval IO.println (showQ (Bench_Sphere_f { ncols := 5, rows := [[(3 : Rat) / 4, (1 : Rat) / 2, (-5 : Rat) / 4, (-1 : Rat) / 2, (5 : Rat) / 4]] }))
+#eval IO.println (showQ (Bench_ScafferPair (fun s => 9 * s * s / 16) { ncols := 4, rows := [[(5 : Rat) / 4, (1 : Rat) / 2, (-1 : Rat) / 2, (-3 : Rat) / 4]] }))
+#eval IO.println (showQ (Bench_Elliptic_f (fun D j => if D == 5 then ((([(0, (1 : Rat) / 1), (1, (8901020307485223 : Rat) / 281474976710656), (2, (1000 : Rat) / 1), (3, (4346201322014269 : Rat) / 137438953472), (4, (1000000 : Rat) / 1)] : List (Nat × Rat)).find? (fun t => t.1 == j)).map (·.2)).getD 0 else 0) { ncols := 5, rows := [[(1 : Rat) / 1, (-1 : Rat) / 1, (0 : Rat) / 1, (0 : Rat) / 1, (-5 : Rat) / 2], [(2 : Rat) / 1, (-2 : Rat) / 1, (-2 : Rat) / 1, (-3 : Rat) / 1, (3 : Rat) / 2]] }))
+#eval IO.println (showQ (Bench_ScafferPair (fun s => 9 * s * s / 16) { ncols := 2, rows := [] }))
+#eval IO.println (showQ (Bench_ScafferPair (fun s => 9 * s * s / 16) { ncols := 3, rows := [] }))
 #eval IO.println (showQ (Bench_Schwefel12_f { ncols := 1, rows := [[(-6 : Rat) / 1], [(-5 : Rat) / 1], [(-1 : Rat) / 1]] }))
 #eval IO.println (showQ (Bench_Ackley_f (fun u => u / 2 + 1) (fun u => 3 * u) (fun z => 1 - z * z) { ncols := 1, rows := [[(1 : Rat) / 4], [(-1 : Rat) / 4]] }))
 #eval IO.println (showQ (Bench_Rastrigin_f (fun _ => 1) { ncols := 2, rows := [[(-4 : Rat) / 1, (2 : Rat) / 1], [(2 : Rat) / 1, (-5 : Rat) / 1], [(6 : Rat) / 1, (2 : Rat) / 1]] }))
@@ -18,12 +21,12 @@ def showQ : Option (List Rat) → String | none => "none" | some v => toString (
 #eval IO.println (showQ (Bench_Elliptic_f (fun D j => if D == 5 then ((([(0, (1 : Rat) / 1), (1, (8901020307485223 : Rat) / 281474976710656), (2, (1000 : Rat) / 1), (3, (4346201322014269 : Rat) / 137438953472), (4, (1000000 : Rat) / 1)] : List (Nat × Rat)).find? (fun t => t.1 == j)).map (·.2)).getD 0 else 0) { ncols := 5, rows := [[(1 : Rat) / 1, (0 : Rat) / 1, (-1 : Rat) / 2, (-3 : Rat) / 2, (3 : Rat) / 4]] }))
 #eval IO.println (showQ (Bench_Schwefel12_f { ncols := 2, rows := [[(3 : Rat) / 2, (-3 : Rat) / 1], [(0 : Rat) / 1, (3 : Rat) / 1], [(-5 : Rat) / 2, (2 : Rat) / 1]] }))
 #eval IO.println (showQ (Bench_Elliptic_f (fun D j => if D == 3 then ((([(0, (1 : Rat) / 1), (1, (1000 : Rat) / 1), (2, (1000000 : Rat) / 1)] : List (Nat × Rat)).find? (fun t => t.1 == j)).map (·.2)).getD 0 else 0) { ncols := 3, rows := [[(1 : Rat) / 4, (-3 : Rat) / 2, (1 : Rat) / 4], [(3 : Rat) / 4, (-5 : Rat) / 4, (-1 : Rat) / 2]] }))
-#eval IO.println (showQ (Bench_Ackley_f (fun u => u / 2 + 1) (fun u => 3 * u) (fun z => 1 - z * z) { ncols := 4, rows := [[(-2 : Rat) / 1, (-3 : Rat) / 2, (1 : Rat) / 1, (-1 : Rat) / 2], [(-2 : Rat) / 1, (-1 : Rat) / 1, (3 : Rat) / 2, (-2 : Rat) / 1], [(1 : Rat) / 2, (-5 : Rat) / 2, (-5 : Rat) / 2, (1 : Rat) / 2]] }))
+#eval IO.println (showQ (Bench_ScafferPair (fun s => 9 * s * s / 16) { ncols := 5, rows := [[(0 : Rat) / 1, (1 : Rat) / 4, (-1 : Rat) / 2, (-1 : Rat) / 1, (-3 : Rat) / 4], [(1 : Rat) / 2, (-1 : Rat) / 4, (-1 : Rat) / 1, (-1 : Rat) / 2, (3 : Rat) / 4], [(-1 : Rat) / 1, (1 : Rat) / 4, (-5 : Rat) / 4, (-5 : Rat) / 4, (1 : Rat) / 4]] }))
 #eval IO.println (showQ (Bench_Elliptic_f (fun D j => if D == 2 then ((([(0, (1 : Rat) / 1), (1, (1000000 : Rat) / 1)] : List (Nat × Rat)).find? (fun t => t.1 == j)).map (·.2)).getD 0 else 0) { ncols := 2, rows := [[(1 : Rat) / 2, (-3 : Rat) / 2], [(-5 : Rat) / 2, (-1 : Rat) / 1], [(-2 : Rat) / 1, (-1 : Rat) / 2]] }))
 #eval IO.println (showQ (Bench_Sphere_f { ncols := 1, rows := [[(-1 : Rat) / 1]] }))
-#eval IO.println (showQ (Bench_Rosenbrock_f { ncols := 1, rows := [] }))
-#eval IO.println (showQ (Bench_Ackley_f (fun u => u / 2 + 1) (fun u => 3 * u) (fun z => 1 - z * z) { ncols := 4, rows := [] }))
-#eval IO.println (showQ (Bench_Griewank_f (fun i a => ((([(0, (-3 : Rat) / 2, (5097152561150375 : Rat) / 72057594037927936), (0, (-3 : Rat) / 4, (6590467434422559 : Rat) / 9007199254740992)] : List (Nat × Rat × Rat)).find? (fun t => t.1 == i && t.2.1 == a)).map (·.2.2)).getD 0) { ncols := 1, rows := [[(-3 : Rat) / 2], [(-3 : Rat) / 4]] }))
+#eval IO.println (showQ (Bench_ScafferPair (fun s => 9 * s * s / 16) { ncols := 1, rows := [[(0 : Rat) / 1]] }))
+#eval IO.println (showQ (Bench_ScafferPair (fun s => 9 * s * s / 16) { ncols := 1, rows := [[(1 : Rat) / 1], [(-1 : Rat) / 2], [(3 : Rat) / 1]] }))
+#eval IO.println (showQ (Bench_Griewank_f (fun i a => ((([] : List (Nat × Rat × Rat)).find? (fun t => t.1 == i && t.2.1 == a)).map (·.2.2)).getD 0) { ncols := 1, rows := [] }))
 #eval IO.println (showQ (Bench_Rosenbrock_f { ncols := 3, rows := [[(-3 : Rat) / 2, (-3 : Rat) / 1, (1 : Rat) / 2], [(-1 : Rat) / 2, (1 : Rat) / 1, (-1 : Rat) / 2], [(-5 : Rat) / 2, (-5 : Rat) / 2, (-1 : Rat) / 1]] }))
 #eval IO.println (showQ (Bench_Elliptic_f (fun D j => if D == 4 then ((([(0, (1 : Rat) / 1), (1, (3518437208883199 : Rat) / 35184372088832), (2, (5497558138879997 : Rat) / 549755813888), (3, (1000000 : Rat) / 1)] : List (Nat × Rat)).find? (fun t => t.1 == j)).map (·.2)).getD 0 else 0) { ncols := 4, rows := [[(3 : Rat) / 1, (-2 : Rat) / 1, (-3 : Rat) / 2, (-1 : Rat) / 1]] }))
 #eval IO.println (showQ (Bench_Rosenbrock_f { ncols := 3, rows := [[(0 : Rat) / 1, (3 : Rat) / 2, (-2 : Rat) / 1], [(3 : Rat) / 1, (-5 : Rat) / 2, (0 : Rat) / 1], [(-1 : Rat) / 2, (1 : Rat) / 1, (1 : Rat) / 2]] }))
@@ -32,8 +35,8 @@ def showQ : Option (List Rat) → String | none => "none" | some v => toString (
 #eval IO.println (showQ (Bench_Rastrigin_f (fun _ => 1) { ncols := 4, rows := [] }))
 #eval IO.println (showQ (Bench_Schwefel12_f { ncols := 2, rows := [[(-1 : Rat) / 1, (-1 : Rat) / 4], [(1 : Rat) / 4, (-3 : Rat) / 4]] }))
 #eval IO.println (showQ (Bench_Sphere_f { ncols := 4, rows := [[(1 : Rat) / 1, (1 : Rat) / 2, (3 : Rat) / 2, (3 : Rat) / 2], [(-3 : Rat) / 2, (2 : Rat) / 1, (0 : Rat) / 1, (1 : Rat) / 1], [(-1 : Rat) / 1, (1 : Rat) / 2, (-3 : Rat) / 2, (-1 : Rat) / 2]] }))
-#eval IO.println (showQ (Bench_OneMax_f { ncols := 4, rows := [] }))
-#eval IO.println (showQ (Bench_Elliptic_f (fun D j => if D == 5 then ((([(0, (1 : Rat) / 1), (1, (8901020307485223 : Rat) / 281474976710656), (2, (1000 : Rat) / 1), (3, (4346201322014269 : Rat) / 137438953472), (4, (1000000 : Rat) / 1)] : List (Nat × Rat)).find? (fun t => t.1 == j)).map (·.2)).getD 0 else 0) { ncols := 5, rows := [[(3 : Rat) / 1, (6 : Rat) / 1, (-6 : Rat) / 1, (0 : Rat) / 1, (-5 : Rat) / 1]] }))
+#eval IO.println (showQ (Bench_ScafferPair (fun s => 9 * s * s / 16) { ncols := 1, rows := [] }))
+#eval IO.println (showQ (Bench_Griewank_f (fun i a => ((([(0, (-3 : Rat) / 1, (-4458529838789353 : Rat) / 4503599627370496), (0, (0 : Rat) / 1, (1 : Rat) / 1), (0, (3 : Rat) / 1, (-4458529838789353 : Rat) / 4503599627370496), (1, (-3 : Rat) / 1, (-4711971222768333 : Rat) / 9007199254740992), (1, (-5 : Rat) / 2, (-7050815245237385 : Rat) / 36028797018963968), (1, (3 : Rat) / 2, (1099545001474001 : Rat) / 2251799813685248)] : List (Nat × Rat × Rat)).find? (fun t => t.1 == i && t.2.1 == a)).map (·.2.2)).getD 0) { ncols := 2, rows := [[(-3 : Rat) / 1, (3 : Rat) / 2], [(3 : Rat) / 1, (-3 : Rat) / 1], [(0 : Rat) / 1, (-5 : Rat) / 2]] }))
 #eval IO.println (showQ (Bench_Rastrigin_f (fun _ => 1) { ncols := 3, rows := [[(-4 : Rat) / 1, (-5 : Rat) / 1, (-4 : Rat) / 1]] }))
 #eval IO.println (showQ (Bench_Griewank_f (fun i a => ((([] : List (Nat × Rat × Rat)).find? (fun t => t.1 == i && t.2.1 == a)).map (·.2.2)).getD 0) { ncols := 2, rows := [] }))
 #eval IO.println (showQ (Bench_OneMax_f { ncols := 5, rows := [[(-4 : Rat) / 1, (-5 : Rat) / 1, (3 : Rat) / 1, (3 : Rat) / 1, (-3 : Rat) / 1], [(-5 : Rat) / 1, (5 : Rat) / 1, (1 : Rat) / 1, (-3 : Rat) / 1, (-6 : Rat) / 1], [(2 : Rat) / 1, (3 : Rat) / 1, (0 : Rat) / 1, (-5 : Rat) / 1, (2 : Rat) / 1]] }))
@@ -44,7 +47,5 @@ def showQ : Option (List Rat) → String | none => "none" | some v => toString (
 #eval IO.println (showQ (Bench_Rastrigin_f (fun _ => 1) { ncols := 2, rows := [] }))
 #eval IO.println (showQ (Bench_Schwefel12_f { ncols := 2, rows := [[(1 : Rat) / 1, (-1 : Rat) / 4], [(-3 : Rat) / 4, (0 : Rat) / 1], [(1 : Rat) / 2, (1 : Rat) / 2]] }))
 #eval IO.println (showQ (Bench_Sphere_f { ncols := 4, rows := [] }))
-#eval IO.println (showQ (Bench_Ackley_f (fun u => u / 2 + 1) (fun u => 3 * u) (fun z => 1 - z * z) { ncols := 2, rows := [[(1 : Rat) / 1, (-1 : Rat) / 2], [(-2 : Rat) / 1, (0 : Rat) / 1], [(-1 : Rat) / 1, (0 : Rat) / 1]] }))
-#eval IO.println (showQ (Bench_Sphere_f { ncols := 2, rows := [[(-3 : Rat) / 2, (-1 : Rat) / 2], [(1 : Rat) / 2, (3 : Rat) / 1]] }))
-#eval IO.println (showQ (Bench_Elliptic_f (fun D j => if D == 5 then ((([(0, (1 : Rat) / 1), (1, (8901020307485223 : Rat) / 281474976710656), (2, (1000 : Rat) / 1), (3, (4346201322014269 : Rat) / 137438953472), (4, (1000000 : Rat) / 1)] : List (Nat × Rat)).find? (fun t => t.1 == j)).map (·.2)).getD 0 else 0) { ncols := 5, rows := [] }))
-#eval IO.println (showQ (Bench_OneMax_f { ncols := 4, rows := [[(0 : Rat) / 1, (-3 : Rat) / 1, (-2 : Rat) / 1, (1 : Rat) / 1], [(1 : Rat) / 1, (-4 : Rat) / 1, (-3 : Rat) / 1, (1 : Rat) / 1], [(-2 : Rat) / 1, (-1 : Rat) / 1, (4 : Rat) / 1, (1 : Rat) / 1]] }))
+#eval IO.println (showQ (Bench_ScafferPair (fun s => 9 * s * s / 16) { ncols := 4, rows := [[(1 : Rat) / 1, (2 : Rat) / 1, (-1 : Rat) / 1, (-4 : Rat) / 1], [(0 : Rat) / 1, (-2 : Rat) / 1, (0 : Rat) / 1, (-5 : Rat) / 1], [(3 : Rat) / 1, (2 : Rat) / 1, (-1 : Rat) / 1, (-3 : Rat) / 1]] }))
+#eval IO.println (showQ (Bench_Ackley_f (fun u => u / 2 + 1) (fun u => 3 * u) (fun z => 1 - z * z) { ncols := 3, rows := [[(3 : Rat) / 1, (0 : Rat) / 1, (-3 : Rat) / 1]] }))
